@@ -644,9 +644,45 @@ def alias_fixed_episodes(g):
             ep.dropall()
 
 
+def alias_self_operand_episodes(g):
+    """deterministic: a bitmap combined WITH ITSELF by every new-result and in-place operation (C01 names this form), chunk kind by
+    chunk kind and with the copy-on-write switch off and on; afterwards the operand is edited where it lies (point, bulk, range, in
+    place), then the result is — each must leave the other as it was"""
+    conts = "5:A:5,9,300,40000;7:R:100+50,1000+200;9:B:32768:5555555555555555*1024"
+    for cow in (0, 1):
+        for op in ("and", "or", "xor", "andnot", "iand", "ior"):
+            ep = A(g)
+            x = g.fresh("so")
+            g.emit("mkrepr %s cow=%d;%s" % (x, cow, conts))
+            ep.define(x, [5, 7, 9])
+            w = g.fresh("so")
+            g.emit("mkrepr %s cow=0;5:A:5,6,7;7:R:120+10;9:A:1,3" % w)
+            ep.define(w, [5, 7, 9])
+            if op.startswith("i"):
+                keep = g.fresh("so")
+                g.emit("clone %s %s" % (keep, x)); ep.define(keep, [5, 7, 9])
+                g.emit("%s %s %s" % (op, x, x))
+                y = keep
+            else:
+                y = g.fresh("so")
+                g.emit("%s %s %s %s" % (op, y, x, x))
+                ep.define(y, [5, 7, 9])
+            ep.check()
+            for t in (x, y):
+                g.emit("add %s %d" % (t, 5 * CH + 6)); ep.check()
+                g.emit("rem %s %d" % (t, 9 * CH + 2)); ep.check()
+                g.emit("addr %s %d %d" % (t, 7 * CH + 150, 7 * CH + 160)); ep.check()
+                g.emit("iandnot %s %s" % (t, w)); ep.check()
+                g.emit("ior %s %s" % (t, w)); ep.check()
+                g.emit("flip %s %d %d" % (t, 9 * CH, 9 * CH + 70)); ep.check()
+            g.count("alias:fixed-self-operand:%s:cow%d" % (op, cow))
+            ep.dropall()
+
+
 @suite("alias")
 def _alias(g, scale):
     alias_fixed_episodes(g)
+    alias_self_operand_episodes(g)
     spare_capacity_episodes(g)
     grid_binary(g, min(1.0, 0.28 * scale))
     grid_unary(g, min(1.0, 0.5 * scale))
